@@ -197,12 +197,16 @@ func (x *Exec) solveOne(o *Oblig, prelude string, cfg solveCfg) {
 	q := x.queryText(o, prelude)
 	if o.Kind == "canary" {
 		// must NOT be provable: one quick attempt with the first solver
-		r, _, ms := runSolver(solvers(3)[0], q, 3)
-		o.Ms = ms
-		if r == "unsat" {
-			o.Status = "proved"
-		} else {
-			o.Status = "failed"
+		// (every solver of the portfolio: cvc5 constructs witnesses z3's E-matching never tries, and it was
+		// cvc5 that exposed an inconsistent, unguarded version of the prelude)
+		o.Status = "failed"
+		for _, sv := range []solverSpec{solvers(3)[0], solvers(3)[2]} {
+			r, _, ms := runSolver(sv, q, 3)
+			o.Ms += ms
+			if r == "unsat" {
+				o.Status = "proved"
+				o.Backend = sv.name
+			}
 		}
 		return
 	}
@@ -303,6 +307,10 @@ func (x *Exec) solveOne(o *Oblig, prelude string, cfg solveCfg) {
 		}
 	}
 	if o.Status == "proved" {
+		if cfg.dumpDir != "" && os.Getenv("VCGO_DUMPALL") != "" {
+			os.MkdirAll(cfg.dumpDir, 0o755)
+			os.WriteFile(filepath.Join(cfg.dumpDir, "PROVED_"+sanitizeFile(o.Name)+"__"+sanitizeFile(o.Path)+".smt2"), []byte(ss[0].hdr+q), 0o644)
+		}
 		return
 	}
 	o.Status = "failed"
